@@ -87,6 +87,9 @@ type Recorder struct {
 	onEvent func(kind string, n int) // called for begin/eval/exec/method events with the running number of such boundary events
 	nbound  int
 	noSnap  bool
+	// cancellation (CancelAtEvent): facts at the instant of cancel(), and the kind of event
+	CancelSnap State
+	CancelKind string
 }
 
 type runAbort struct{}
@@ -100,14 +103,13 @@ func (r *Recorder) add(e Event) int64 {
 }
 
 func (r *Recorder) boundary(kind string) {
-	if r.onEvent == nil {
-		return
-	}
 	r.mu.Lock()
 	r.nbound++
 	n := r.nbound
 	r.mu.Unlock()
-	r.onEvent(kind, n)
+	if r.onEvent != nil {
+		r.onEvent(kind, n)
+	}
 }
 
 func (r *Recorder) methodEvent(name string, n int, seq int64, fault string) {
@@ -321,6 +323,9 @@ type RunCfg struct {
 	OnEvent    func(kind string, n int)
 	AbortAfter int // abort after this many cycles (logical hang detection); 0 = MaxCycle+2
 	Fetch      bool // call FetchMatchingRules instead of Execute
+	// CancelAtEvent > 0: cancel() is invoked synchronously when the n-th boundary event
+	// (BeginCycle, EvaluateRuleEntry, ExecuteRuleEntry, harness method call) occurs.
+	CancelAtEvent int
 }
 
 // RunResult is everything observed in one engine call.
@@ -336,6 +341,7 @@ type RunResult struct {
 	Matched []string // FetchMatchingRules result (names in returned order)
 	MSal    []int
 	Rec     *Recorder
+	NBound  int // number of boundary events seen
 	EntrySal map[string]int // salience held by every non-removed rule entry of the knowledge base
 }
 
@@ -409,6 +415,22 @@ func Run(kb *ast.KnowledgeBase, prog *Program, st State, cfg RunCfg) *RunResult 
 	}
 	rec := &Recorder{stamp: stamp, prog: prog, noSnap: cfg.NoSnap, onEvent: cfg.OnEvent}
 	res.Rec = rec
+	if cfg.CancelAtEvent > 0 && cfg.Cancel != nil {
+		user := cfg.OnEvent
+		rec.onEvent = func(kind string, n int) {
+			if n == cfg.CancelAtEvent {
+				if rec.live != nil && !rec.noSnap {
+					rec.CancelSnap = CopyState(rec.live())
+				}
+				rec.CancelKind = kind
+				cfg.Cancel()
+				rec.cancelEvent()
+			}
+			if user != nil {
+				user(kind, n)
+			}
+		}
+	}
 	if t, ok := st["T"].(*Tool); ok && t != nil {
 		if cfg.Hooks == nil {
 			cfg.Hooks = &Hooks{}
@@ -468,6 +490,7 @@ func Run(kb *ast.KnowledgeBase, prog *Program, st State, cfg RunCfg) *RunResult 
 		}
 	}()
 	res.Final = CopyState(rec.live())
+	res.NBound = rec.nbound
 	res.EntrySal = map[string]int{}
 	for _, re := range kb.RuleEntries {
 		if !re.Deleted {
